@@ -197,6 +197,12 @@ func runC12(e *core.Env) {
 		o := gen.Opts{MaxRecs: 12, MinRecs: 1, MaxEntries: 4, OpenRanges: 1, Tags: 1, Near: &today, NearSpread: r.PickInt(2, 8, 40, 200, 900), Hostile: r.Chance(1, 5), MaxHours: 12}
 		d := gen.Document(r, o)
 		f := writeFile(e.Dir, "c12.klg", d.Text)
+		inFiles := []string{f}
+		if r.Chance(1, 5) {
+			if parts, ok := splitAtRecord(e, r, d, "c12"); ok {
+				inFiles = parts
+			}
+		}
 		minute := r.Intn(1440)
 		clock := obs.ClockAt(today, minute, 0)
 		for v := 0; v < 12; v++ {
@@ -221,13 +227,13 @@ func runC12(e *core.Env) {
 			agg := []string{"d", "w", "m", "q", "y"}[v%5]
 			view := fmt.Sprintf("agg=%s fill=%v", agg, v%2 == 0)
 			e.Begin(caseID, []byte(fmt.Sprintf("today=%s %02d:%02d view=%s query=%s\n%s", today, minute/60, minute%60, view, q.String(), d.Text)))
-			c12Check(e, r, d, f, q, agg, v%2 == 0, r.Bool(), r.Chance(1, 3), today, minute, clock, v)
+			c12Check(e, r, d, f, inFiles, q, agg, v%2 == 0, r.Bool(), r.Chance(1, 3), today, minute, clock, v)
 			e.End(caseID)
 		}
 	}
 }
 
-func c12Check(e *core.Env, r *core.Rand, d *gen.Out, f string, q query, agg string, fill, diff, now bool, today ref.Date, minute int, clock timeT, v int) {
+func c12Check(e *core.Env, r *core.Rand, d *gen.Out, f string, inFiles []string, q query, agg string, fill, diff, now bool, today ref.Date, minute int, clock timeT, v int) {
 	w := map[string]any{"text": d.Text, "view": fmt.Sprintf("report -a %s fill=%v diff=%v now=%v %s", agg, fill, diff, now, q.String()), "clock": clock.Format("2006-01-02T15:04")}
 	sel, undecided := q.apply(d.Doc, today)
 	if undecided || (len(q.Tags) > 0 && hasTagAmbiguity(d.Doc)) {
@@ -274,7 +280,10 @@ func c12Check(e *core.Env, r *core.Rand, d *gen.Out, f string, q query, agg stri
 	}
 	cpus := r.PickInt(1, 1, 3)
 	res := runRO(e, &cli.Report{AggregateBy: agg, Fill: fill, DiffArgs: util.DiffArgs{Diff: diff}, FilterArgs: fa, NowArgs: util.NowArgs{Now: now}, DecimalArgs: util.DecimalArgs{Decimal: true},
-		WarnArgs: util.WarnArgs{NoWarn: true}, NoStyleArgs: util.NoStyleArgs{NoStyle: true}, InputFilesArgs: util.InputFilesArgs{File: files(f)}}, cpus, "", "", clock)
+		WarnArgs: util.WarnArgs{NoWarn: true}, NoStyleArgs: util.NoStyleArgs{NoStyle: true}, InputFilesArgs: util.InputFilesArgs{File: files(inFiles...)}}, cpus, "", "", clock)
+	if len(inFiles) > 1 {
+		e.Count("views_over_two_input_files", 1)
+	}
 	if res.Panic != nil {
 		e.Violation("report-panic: "+res.Panic.Site(), res.Panic.Value, w)
 		return
@@ -294,7 +303,7 @@ func c12Check(e *core.Env, r *core.Rand, d *gen.Out, f string, q query, agg stri
 		if now {
 			args = append(args, "--now")
 		}
-		args = append(append(args, q.Args()...), f)
+		args = append(append(args, q.Args()...), inFiles...)
 		if !cliAgrees(e, w, args, cpus, "", "", clock, res.Out, false) {
 			return
 		}
